@@ -261,6 +261,8 @@ class JSON(Filetype):
         except json.decoder.JSONDecodeError as de:
             return f'Error parsing {os.path.basename(path)}: {de.msg}: line {de.lineno}, column {de.colno} ' \
                    f'(char {de.pos})'
+        except UnicodeDecodeError as ue:
+            return f'Error parsing {os.path.basename(path)}: {ue!s}'
 
     def get_default_formatter(self) -> JSONFormatter:
         return JSONFormatter.DEFAULT_INSTANCE
